@@ -256,6 +256,14 @@ func (x *Exec) evalCall(env *SpecEnv, e *ECall) SVal {
 		if len(e.Args) != 1 {
 			sfail("addr(x.f)")
 		}
+		// addr(v) for a package-level variable v (a global mutex): the identity of &v
+		if id, ok := e.Args[0].(*EIdent); ok && env.pkg != nil {
+			if _, isLocal := env.vars[id.Name]; !isLocal {
+				if obj, ok := env.pkg.Scope().Lookup(id.Name).(*types.Var); ok {
+					return SVal{VScalar{x.declare("addr.global."+sanitize(obj.Pkg().Path()+"."+obj.Name()), SInt)}, intT}
+				}
+			}
+		}
 		pl := x.exprPlace(env, e.Args[0])
 		return SVal{VScalar{x.refOfPtr(VPtr{pl})}, intT}
 	case "hint":
